@@ -264,6 +264,20 @@ def run(check):
             idx += 1
             items.append((case, g, kind))
             cor_n += 1
+    # references nested very deep (ten to fourteen maps and lists) in an output, a step input and wait_for: every one is a
+    # dependency like any other
+    def deep(node, depth, lists=False):
+        for d in range(depth):
+            node = [node] if (lists and d % 2) else {"k%d" % d: node}
+        return node
+    for depth in (9, 10, 14):
+        for lists in (False, True):
+            a = gen.plugin_step("a", Expr(In("tag")))
+            b = gen.plugin_step("b", Expr(In("tag")), extra_input={"a": deep(gen.tagref("a"), depth, lists)})
+            c = gen.plugin_step("c", Expr(In("tag")), wait_for=deep(Expr(Ref("b", "outputs", "success")), depth, lists))
+            p = Program([a, b, c], {"success": {"deep": deep(gen.tagref("c"), depth, lists), "a": deep(Expr(In("tag")), depth, lists)}}, gen.BASE_INPUT)
+            items.append(({"id": "c10-%05d" % idx, "files": p.files(), "scripts": {}, "runs": [], "dump_dag": True}, {"shape": "deep-nesting-%d%s" % (depth, "-lists" if lists else ""), "program": p}, None))
+            idx += 1
     # workflows of a single step that refers to itself (cycles of length one), at the top level and as the sub-workflow of a loop
     from ..model import RawExpr
     for k, (field, node) in enumerate([("wait_for", Expr(RawExpr("$.steps.only.outputs"))), ("wait_for", Expr(Ref("only", "outputs", "success"))), ("wait_for", Expr(Ref("only", "starting", "started"))),
